@@ -9,7 +9,6 @@ import (
 
 	"github.com/lindb/lindb/internal/vbox"
 	"github.com/lindb/lindb/internal/vevid"
-	"github.com/lindb/lindb/tsdb/memdb"
 )
 
 // ---------------------------------------------------------------------------------------------------
@@ -24,31 +23,6 @@ import (
 func runSpecials(w *world, rep *vevid.Report) {
 	sameTick(w, rep)
 	emptyMetaFlush(w, rep)
-}
-
-type memdbGetter interface {
-	GetOrCreateMemoryDatabase(familyTime int64) (memdb.MemoryDatabase, error)
-}
-
-func (w *world) createdTime(ts int64) (int64, error) {
-	shard, ok := w.box.DB.GetShard(shardID)
-	if !ok {
-		return 0, fmt.Errorf("no shard")
-	}
-	ft := shard.CurrentInterval().Calculator().CalcFamilyTime(ts)
-	f, err := shard.GetOrCrateDataFamily(ft)
-	if err != nil {
-		return 0, err
-	}
-	g, ok := f.(memdbGetter)
-	if !ok {
-		return 0, fmt.Errorf("data family has no GetOrCreateMemoryDatabase")
-	}
-	db, err := g.GetOrCreateMemoryDatabase(ft)
-	if err != nil {
-		return 0, err
-	}
-	return db.CreatedTime(), nil
 }
 
 func (w *world) writePoint(metric, series string, t int64, v float64, off int) error {
@@ -109,8 +83,8 @@ func specialEval(w *world, rep *vevid.Report, clause, scenario, history string, 
 	}
 }
 
-// sameTick: see above. The two creations are verified to share memdb.CreatedTime(); if the scheduler never lets both
-// writes fall into one tick the scenario is counted as skipped (never a violation).
+// sameTick: see above. Both writes are verified to fall between two readings of the fast clock that are equal; if the
+// scheduler never lets that happen the scenario is counted as skipped (never a violation).
 func sameTick(w *world, rep *vevid.Report) {
 	for _, after := range []string{"", "F", "R", "F w", "R w"} {
 		scenario := "same-tick/" + strings.ReplaceAll(after, " ", "")
@@ -129,21 +103,19 @@ func sameTick(w *world, rep *vevid.Report) {
 			for fasttime.UnixNano() == t {
 				time.Sleep(50 * time.Microsecond)
 			}
+			t0 := fasttime.UnixNano()
 			if err := w.writePoint(metric, "a", slotOf("same"), 4, 0); err != nil {
 				vevid.Fatal("special write: %v", err)
 			}
 			if err := w.writePoint(metric, "a", slotOf("fam2"), 1, 1); err != nil {
 				vevid.Fatal("special write: %v", err)
 			}
-			w.lastCreate = fasttime.UnixNano()
+			t1 := fasttime.UnixNano()
+			w.lastCreate = t1
 			m.write("a", slotOf("same"), 4)
 			m.write("a", slotOf("fam2"), 1)
-			c1, err1 := w.createdTime(w.base)
-			c2, err2 := w.createdTime(w.base + familyMs)
-			if err1 != nil || err2 != nil {
-				vevid.Fatal("special created time: %v %v", err1, err2)
-			}
-			if c1 != c2 {
+			if t0 != t1 {
+				// the two writes did not fall into one tick of the fast clock: try again
 				rep.Count("same-tick retries", 1)
 				continue
 			}
